@@ -463,3 +463,12 @@ func trunc(b []byte, n int) string {
 
 // rmTree removes a directory tree (kept separate so that callers can run it late, after stuck goroutines).
 func rmTree(p string) error { return os.RemoveAll(p) }
+
+func contains(l []string, x string) bool {
+	for _, y := range l {
+		if y == x {
+			return true
+		}
+	}
+	return false
+}
